@@ -101,7 +101,7 @@ class IOAdapter(Adapter):
         if one_d:
             if o["axes"][0]:
                 kw["axis_name"] = f"ax{o['axes'][0]}"
-            m = [self._val(v, "f8") for v in o["missed"]]
+            m = [self._val(v, o["dtype"]) for v in o["missed"]]
             return klass(bs[0], f, e, keep_missed=o["keep"], dtype=dt, underflow=m[0], overflow=m[1], inner_missed=m[2], **kw)
         if any(o["axes"]):
             kw["axis_names"] = [f"ax{a}" if a else f"axis{i}" for i, a in enumerate(o["axes"])]
